@@ -49,6 +49,8 @@ pub struct VarDesc {
     /// how a read value is consumed (0: kept in memory, 1: left on the stack) and how shift
     /// amounts are written (bit 1 set: computed as byteOffset * 8 instead of a literal)
     pub style:    usize,
+    /// where written values come from: 0 calldata, 1 TIMESTAMP, 2 NUMBER, 3 CALLER, 4 CALLVALUE
+    pub src:      usize,
 }
 
 impl VarDesc {
@@ -62,6 +64,7 @@ impl VarDesc {
             "fields": self.fields.iter().map(|(o, w)| json!([o, w])).collect::<Vec<_>>(),
             "access": self.access,
             "style": self.style,
+            "src": self.src,
         })
     }
 
@@ -88,6 +91,7 @@ impl VarDesc {
                 .unwrap_or_default(),
             access: v["access"].as_str().unwrap_or("rw").to_string(),
             style: v["style"].as_u64().unwrap_or(0) as usize,
+            src: v["src"].as_u64().unwrap_or(0) as usize,
         })
     }
 }
@@ -126,6 +130,16 @@ fn addr_mask() -> Vec<Item> {
 
 fn calldata(at: u8) -> Vec<Item> {
     vec![p1(at), Item::Op(CALLDATALOAD)]
+}
+
+fn value_source(src: usize, at: u8) -> Vec<Item> {
+    match src {
+        1 => vec![Item::Op(0x42)],
+        2 => vec![Item::Op(0x43)],
+        3 => vec![Item::Op(0x33)],
+        4 => vec![Item::Op(0x34)],
+        _ => calldata(at),
+    }
 }
 
 fn keep(style: usize) -> Vec<Item> {
@@ -208,7 +222,7 @@ fn write_code(v: &VarDesc) -> Vec<Vec<Item>> {
             for (off, w) in &v.fields {
                 let mut c = vec![push_word(&v.slot, v.width), Item::Op(SLOAD)];
                 c.extend([push_word(&shifted_inverse(*w, *off), 32), Item::Op(AND)]);
-                c.extend(calldata(4));
+                c.extend(value_source(v.src, 4));
                 c.extend([push_word(&mask_bits(*w), 0), Item::Op(AND)]);
                 if *off > 0 {
                     c.extend(shift_by(*off, v.style, SHL));
@@ -219,7 +233,7 @@ fn write_code(v: &VarDesc) -> Vec<Vec<Item>> {
             }
         }
         _ => {
-            let mut c = calldata(0x64);
+            let mut c = value_source(v.src, 0x64);
             if v.kind == Kind::Addr || v.val_addr {
                 c.extend(addr_mask());
             }
@@ -335,6 +349,7 @@ pub fn random_var(rng: &mut StdRng, used: &mut Vec<[u8; 32]>) -> VarDesc {
         fields: if kind == Kind::Packed { random_fields(rng) } else { vec![] },
         access: (*["r", "w", "rw", "rw"].choose(rng).unwrap()).to_string(),
         style: rng.gen_range(0..4),
+        src: *[0usize, 0, 0, 1, 2, 3, 4].choose(rng).unwrap(),
         kind,
     }
 }
